@@ -91,6 +91,20 @@ class Verifier(Dyn):
             if p == names[0] and self.fi.kind == "class" and p not in c.types:
                 binding[p] = VClass(self.fi.cls, self.fi.module)
                 continue
+            if p in c.labels.get("use_defaults", ()):
+                # this contract variant is about calls that omit the argument: the parameter takes the default written in the signature
+                pos = a.posonlyargs + a.args
+                dflt = None
+                if p in [x.arg for x in pos]:
+                    i = [x.arg for x in pos].index(p) - (len(pos) - len(a.defaults))
+                    dflt = a.defaults[i] if i >= 0 else None
+                elif p in [x.arg for x in a.kwonlyargs]:
+                    dflt = a.kw_defaults[[x.arg for x in a.kwonlyargs].index(p)]
+                if dflt is None:
+                    raise Unsupported("parameter %s of %s has no default" % (p, self.fid))
+                self.st.env = dict(binding)
+                binding[p] = self.ev(dflt)
+                continue
             if p not in c.types:
                 raise Unsupported("parameter %s of %s has no declared type" % (p, self.fid))
             binding[p] = self.sym(c.types[p], p, record_input=True)
@@ -540,7 +554,36 @@ class Verifier(Dyn):
                 "requires": list(c.requires), "class_state": [[k[0], k[1], g] for k, g in getattr(self.reg, "class_state", {}).items()]}
 
     def run(self, timeout_ms=10000):
-        """Explore and discharge; returns a JSON-able report for this function."""
+        """Explore and discharge.  When the function's loop structure has drifted from the contract, iterate: candidate invariant
+        clauses that fail entry / preservation (or cannot be decided) are dropped and the function is re-verified with the rest."""
+        self.dropped_invariants = set()
+        for _round in range(8):
+            rep = self.run_once(timeout_ms)
+            if not getattr(self, "drift", False) or rep.get("status") != "ok":
+                break
+            bad = [o for o in rep["obligations"] if o["kind"] in ("loop-entry", "loop-preserved") and o["result"] != "discharged"]
+            if not bad:
+                break
+            before = len(self.dropped_invariants)
+            for o in bad:
+                ordinal = int(o["name"].split("/loop")[1].split("-")[0])
+                self.dropped_invariants.add((ordinal, o.get("clause_text") or o.get("clause")))
+            if len(self.dropped_invariants) == before:
+                break
+            # restart from scratch with the smaller candidate set
+            self.obligations, self.ob_order, self.pending, self.paths = {}, [], [], 0
+            self.outcomes = {"return": 0, "raise": 0, "cut": 0, "infeasible": 0}
+            self.cover_hits = {}
+        if getattr(self, "drift", False):
+            rep["drift"] = {"reason": "loop structure differs from the contract's loop table: invariants were re-assigned as candidates and filtered",
+                            "dropped_candidates": sorted("%d: %s" % (o, c_) for o, c_ in self.dropped_invariants if c_)}
+            rep["obligations"] = [o for o in rep["obligations"] if not (o["kind"] in ("loop-entry", "loop-preserved") and o["result"] != "discharged")]
+            for o in rep["obligations"]:
+                if o["result"] == "failed":
+                    o["needs_native_confirmation"] = True
+        return rep
+
+    def run_once(self, timeout_ms=10000):
         rep = {"fid": self.fid, "level": self.level, "prop": self.contract.prop, "src_hash": self.fi.src_hash(), "file": self.src.module(self.fi.module).path,
                "lines": [self.fi.node.lineno, self.fi.node.end_lineno], "obligations": [], "status": "ok"}
         t0 = time.time()
@@ -558,7 +601,7 @@ class Verifier(Dyn):
         for ob in obs:
             self.discharge(ob, timeout_ms)
             rep["obligations"].append({"name": ob.name, "kind": ob.kind, "level": ob.level, "result": ob.result, "backend": ob.backend,
-                                       "time_s": round(ob.time, 4), "clause": ob.info.get("clause"), "tags": ob.info.get("tags"), "model": ob.model,
+                                       "time_s": round(ob.time, 4), "clause": ob.info.get("clause"), "clause_text": ob.info.get("clause_text"), "tags": ob.info.get("tags"), "model": ob.model,
                                        "reason": getattr(ob, "reason", ""), "goal": str(ob.goal)[:300]})
         if any(o["result"] == "failed" for o in rep["obligations"]):
             rep["replay_ctx"] = self.replay_context()
